@@ -162,7 +162,7 @@ def outcomes(case, max_states=300000):
             elif k2 == "jn":
                 target = tk[1][int(op[2:])]
                 if finished(T[target]):
-                    yield put(advance(tk, "2:%d" % target)), True
+                    yield put(advance(tk, "2:%d,%d" % (target, 1000 + target))), True
             elif k2 == "yd":
                 yield put(advance(tk, "3:")), True
             elif k2 == "rs":
